@@ -116,7 +116,7 @@ fn key_name(i: usize) -> String {
 fn gen_program(seed: u64, id: u64, focus: &str, thorough: bool) -> Program {
     let mut rng = Rng::derive(seed ^ 0xC0C0, id);
     let family: &'static str = match focus {
-        "C05" => *rng.pick(&["readwrite", "readwrite", "readwrite", "writers"]),
+        "C05" => *rng.pick(&["readwrite", "readwrite", "read-vs-rewrites", "writers"]),
         "C17" => "readwrite",
         "C06" => *rng.pick(&["readwrite", "writers", "readers-long"]),
         "C07" => *rng.pick(&["writers", "writers", "abort"]),
@@ -161,7 +161,10 @@ fn gen_program(seed: u64, id: u64, focus: &str, thorough: bool) -> Program {
     let cur = |setup: &Vec<(usize, usize)>, k: usize| setup.iter().find(|(kk, _)| *kk == k).map(|x| x.1);
     let mut workers: Vec<Vec<WOp>> = Vec::new();
     for w in 0..n_workers {
-        let n = 1 + usize::from(rng.chance(1, 3)) + usize::from(thorough && rng.chance(1, 4));
+        let mut n = 1 + usize::from(rng.chance(1, 3)) + usize::from(thorough && rng.chance(1, 4));
+        if family == "read-vs-rewrites" {
+            n = if w == 0 { 1 } else { 3 };
+        }
         let mut ops = Vec::new();
         for _ in 0..n {
             let writer_op = |rng: &mut Rng, setup: &Vec<(usize, usize)>| -> WOp {
@@ -210,6 +213,19 @@ fn gen_program(seed: u64, id: u64, focus: &str, thorough: bool) -> Program {
                 }
             };
             let op = match family {
+                "read-vs-rewrites" => {
+                    // one reader against a writer that replaces the key several times in a row:
+                    // a read that retries must keep following the key through every replacement
+                    if w == 0 {
+                        match rng.below(3) {
+                            0 => WOp::Get { key: hot_key },
+                            1 => WOp::GetRange { key: hot_key, start: 0, end: u64::MAX },
+                            _ => WOp::Reader { key: hot_key },
+                        }
+                    } else {
+                        WOp::Put { key: hot_key, content: ops.len() % 3, two_chunks: false }
+                    }
+                }
                 "writers" => writer_op(&mut rng, &setup),
                 "readwrite" => {
                     if w == 0 || (w == 2 && rng.chance(1, 2)) {
@@ -607,10 +623,39 @@ fn schedule_desc(s: &Strategy) -> String {
         Strategy::Prefix { prefix } => {
             format!("prefix:{}", prefix.iter().map(|x| x.to_string()).collect::<Vec<_>>().join(","))
         }
+        // the site itself contains ':' - it is everything after the first one
+        Strategy::Stall { site } => format!("stall:{site}"),
     }
 }
 
+/// Sites of the delay-site sweep: every named hook point and every lock acquisition.
+const STALL_SITES: &[&str] = &[
+    "read:after_lookup",
+    "commit:after_sync",
+    "cas:before_rename",
+    "commit:after_rename",
+    "apply_put:after_apply",
+    "apply_remove:after_apply",
+    "cas:before_unlink",
+    "apply:after_release",
+    "remove:after_scan",
+    "remove_range:after_scan",
+    "checkpoint:before_persist",
+    "checkpoint:before_prune",
+    "orphan:before_delete",
+    "orphan:before_quarantine",
+    "orphan:before_delete_one",
+    "client:abort_before_drop",
+    "lock:intents:x",
+    "lock:state:x",
+    "lock:state:r",
+    "lock:wal:x",
+];
+
 fn parse_schedule(s: &str) -> Option<Strategy> {
+    if let Some(site) = s.strip_prefix("stall:") {
+        return Some(Strategy::Stall { site: site.to_string() });
+    }
     let parts: Vec<&str> = s.split(':').collect();
     match parts.first().copied()? {
         "random" => Some(Strategy::Random { seed: parts.get(1)?.parse().ok()? }),
@@ -1005,6 +1050,31 @@ fn run_and_judge(prog: &Program, strategy: Strategy, serial: bool, focus: &str) 
             }
         }
     }
+    // ---- the files on disk, read by the independent decoder, equal the final index (C20)
+    if !any_error {
+        match cassadilia_verif::disk::decode_db(&ctx.root, prog.n_ops) {
+            Ok(st) => {
+                let g = ctx.cas.read_index_state();
+                let want: BTreeMap<Vec<u8>, (Hash32, u64)> =
+                    g.iter().map(|(k, i)| (k.as_bytes().to_vec(), (i.blob_hash.0, i.blob_size))).collect();
+                drop(g);
+                if st.map != want {
+                    findings.push(Finding::new(
+                        &["C20", "C02"],
+                        "after a concurrent history snapshot plus log decode to a state other than the index",
+                        "decode at quiescence",
+                        format!("decoded {} keys (snapshot v{}, max v{}), index has {} keys", st.map.len(), st.snapshot_version, st.max_version, want.len()),
+                    ));
+                }
+            }
+            Err(e) => findings.push(Finding::new(
+                &["C20"],
+                "on-disk files are malformed after a concurrent history",
+                "decode at quiescence",
+                e,
+            )),
+        }
+    }
     // ---- what a concurrent history left behind must survive a clean restart unchanged
     let before = cassadilia_verif::oracle::observe(&ctx.cas);
     let root = ctx.root.clone();
@@ -1058,6 +1128,7 @@ fn class_of_err(e: &str) -> String {
 fn focus_static(focus: &str) -> &'static str {
     match focus {
         "C02" => "C02",
+        "C20" => "C20",
         "C17" => "C17",
         "C05" => "C05",
         "C06" => "C06",
@@ -1199,6 +1270,23 @@ impl Explorer<'_> {
             match run_and_judge(prog, strategy.clone(), true, self.focus) {
                 Ok(j) => {
                     self.rep.count("runs_random", 1);
+                    if self.record(prog, &strategy, true, j) {
+                        return true;
+                    }
+                }
+                Err(e) => self.rep.inconclusive.push(format!("program {} could not be prepared: {e}", prog.id)),
+            }
+        }
+        // delay-site sweep: park whoever reaches the site until another worker completed a whole
+        // operation - at every occurrence (stalls retry loops across several foreign operations)
+        for site in STALL_SITES {
+            if Instant::now() > self.deadline {
+                return false;
+            }
+            let strategy = Strategy::Stall { site: (*site).to_string() };
+            match run_and_judge(prog, strategy.clone(), true, self.focus) {
+                Ok(j) => {
+                    self.rep.count("runs_delay_site_sweep", 1);
                     if self.record(prog, &strategy, true, j) {
                         return true;
                     }
